@@ -183,7 +183,7 @@ func vfC06Gen(rt *rapid.T) vfC06Case {
 			return vfWOp{Op: "flush", Ref: -1}
 		}
 	})
-	c.Ops = rapid.SliceOfN(opGen, 1, 40).Draw(rt, "ops")
+	c.Ops = vfListOf(rt, "ops", opGen, 1, 40)
 
 	// per-index clause
 	c.Direct = rapid.SampledFrom([]string{"flat", "hnsw", "ivf", "pq", "ivfpq", "bm25", "metadata"}).Draw(rt, "direct_kind")
@@ -207,7 +207,7 @@ func vfC06Gen(rt *rapid.T) vfC06Case {
 			return vfDirectOp{Op: "add", ID: id, Content: rapid.IntRange(0, 3).Draw(rt, "d_content")}
 		}
 	})
-	c.DirectOps = rapid.SliceOfN(dGen, 2, 14).Draw(rt, "direct_ops")
+	c.DirectOps = vfListOf(rt, "direct_ops", dGen, 2, 24)
 	return c
 }
 
@@ -839,6 +839,7 @@ func vfKeys(m map[uint32]int) []uint32 {
 }
 
 func vfC06Run(c vfC06Case, ctx *vfCtx) *vfViolation {
+	ctx.HistoryLen("history", len(c.Ops))
 	if v := vfC06Hybrid(&c, ctx); v != nil {
 		return v
 	}
